@@ -61,6 +61,10 @@ def vcs(B):
     B.function('LC__N', P_, 'computeGrandeNormal')
     B.function('LC__secant', P_, 'computeProjectionParameters', sig='(const romea::core::LambertConverter::SecantProjectionParameters &, const romea::core::EarthEllipsoid &)')
     B.function('LC__tangent', P_, 'computeProjectionParameters', sig='(const romea::core::LambertConverter::TangentProjectionParameters &, const romea::core::EarthEllipsoid &)')
+    B.function('LC__ctor_secant', P_, 'LambertConverter', sig='(const romea::core::LambertConverter::SecantProjectionParameters &, const romea::core::EarthEllipsoid &)')
+    B.function('LC__ctor_tangent', P_, 'LambertConverter', sig='(const romea::core::LambertConverter::TangentProjectionParameters &, const romea::core::EarthEllipsoid &)')
+    B.function('LC__ctor_params', P_, 'LambertConverter', sig='(const romea::core::LambertConverter::ProjectionParameters &, const double &)')
+    B.function('LC__ctor_6', P_, 'LambertConverter', nparams=6)
     B.extract()
     B.loop_handler = B.fixed_point_loop
     B.decls['pi'] = 'Real'
@@ -223,6 +227,27 @@ def vcs(B):
         if kind in ('log.arg_positive', 'pow.base_positive') and ('f_tan' in cond):
             continue
         B.vc('tangent.domain.%s.%d' % (kind, k), implies(pc, cond), tdom + [gt0(sub('1.0', sq(mul(e, s0))))], functions=ft, subst=GEN_T)
+
+    # =========================== constructors: the converter stores the constants computed from its parameters ===========================
+    # (the VCs above are about member functions of a converter whose members are the computed constants and the ellipsoid's eccentricity)
+    members = ('longitude0_', 'n_', 'c_', 'xs_', 'ys_')
+    fields = ('longitude0', 'n', 'c', 'xs', 'ys')
+    for kind, cname, params, computed in (
+            ('secant', 'LC__ctor_secant', B.make('LambertConverter_SecantProjectionParameters', longitude0=lam0, latitude0=lat0, latitude1=lat1, latitude2=lat2, x0=x0, y0=y0), SP),
+            ('tangent', 'LC__ctor_tangent', B.make('LambertConverter_TangentProjectionParameters', latitude0=lat0, longitude0=lam0, k0=k0, x0=x0, y0=y0), TP)):
+        obj = B.sx.arbitrary_value(('struct', 'LambertConverter'), 'ctor_%s_prior' % kind)
+        B.call(cname, obj, params, ell)
+        B.take_obligations()
+        for mname, fname in zip(members, fields):
+            B.vc('constructor.%s.%s_is_the_computed_constant' % (kind, mname), eq(obj[mname], B.get(computed, fname)), [], functions=[cname, 'LC__ctor_params', 'LC__ctor_6'])
+        B.vc('constructor.%s.e_is_the_eccentricity_of_the_given_ellipsoid' % kind, eq(obj['e_'], e), [], functions=[cname, 'LC__ctor_params', 'LC__ctor_6'])
+    pp = [B.real('pp_' + f) for f in fields]
+    obj = B.sx.arbitrary_value(('struct', 'LambertConverter'), 'ctor_params_prior')
+    B.call('LC__ctor_params', obj, B.make('LambertConverter_ProjectionParameters', **dict(zip(fields, pp))), e)
+    B.take_obligations()
+    for mname, v in zip(members, pp):
+        B.vc('constructor.params.%s_is_the_given_constant' % mname, eq(obj[mname], v), [], functions=['LC__ctor_params', 'LC__ctor_6'])
+    B.vc('constructor.params.e_is_the_given_eccentricity', eq(obj['e_'], e), [], functions=['LC__ctor_params', 'LC__ctor_6'])
 
     # =========================== inverse map on an image of the forward map ===========================
     B.loop_records.clear()
